@@ -542,6 +542,12 @@ func pooledObjectsReset(c *Ctx, rule string, relPrefixes ...string) {
 								if s3, ok := r3.(*ssa.Store); ok && s3.Addr == ssa.Value(x) {
 									assigned[fieldNameOf(x)] = true
 								}
+								// an embedded value with a Reset of its own: enc.Reset() = (*bytes.Buffer).Reset(&enc.Buffer), before use or before the Put
+								if rc, ok := r3.(ssa.CallInstruction); ok {
+									if f := rc.Common().StaticCallee(); f != nil && f.Name() == "Reset" && len(rc.Common().Args) > 0 && rc.Common().Args[0] == ssa.Value(x) {
+										assigned[fieldNameOf(x)] = true
+									}
+								}
 								// a buffered reader/writer kept and re-pointed: c.controlReader.Reset(conn)
 								if ld, ok := r3.(*ssa.UnOp); ok && ld.Referrers() != nil {
 									for _, r4 := range *ld.Referrers() {
@@ -599,6 +605,48 @@ func pooledObjectsReset(c *Ctx, rule string, relPrefixes ...string) {
 									}
 								}
 							}
+						}
+					}
+				}
+				// cleaned on the way in: every Put on the same pool, anywhere, is preceded in its function by a Reset of the object
+				// (or of an embedded value) it puts back – objects then come out of the pool clean, like new ones
+				if g, isG := cv.Call.Args[0].(*ssa.Global); isG {
+					nPut, allReset := 0, true
+					resetFields := map[string]bool{}
+					for _, pf := range p.Funcs() {
+						for _, pc := range Calls(pf) {
+							if !MethodIs(pc.Common().StaticCallee(), "sync", "Pool", "Put") || len(pc.Common().Args) != 2 || pc.Common().Args[0] != ssa.Value(g) {
+								continue
+							}
+							nPut++
+							v := Unwrap(pc.Common().Args[1])
+							found := false
+							for _, rc := range Calls(pf) {
+								f := rc.Common().StaticCallee()
+								if f == nil || f.Name() != "Reset" || len(rc.Common().Args) == 0 || !before(rc, pc) {
+									continue
+								}
+								a0 := rc.Common().Args[0]
+								if a0 == v {
+									found = true
+									resetFields["*"] = true
+								}
+								if fa, isFA := a0.(*ssa.FieldAddr); isFA && fa.X == v {
+									found = true
+									resetFields[fieldNameOf(fa)] = true
+								}
+							}
+							if !found {
+								allReset = false
+							}
+						}
+					}
+					if nPut > 0 && allReset {
+						for k := range resetFields {
+							if k == "*" {
+								whole = true
+							}
+							assigned[k] = true
 						}
 					}
 				}
